@@ -33,7 +33,7 @@ class Ty:
 
     def rs(self, self_name=None) -> str:
         k = self.kind
-        if k in ("prim", "raw"):
+        if k in ("prim", "raw", "alias"):
             return self.name
         if k == "param":
             return self.name
@@ -58,6 +58,13 @@ class Ty:
             return self.item.name
         raise ValueError(k)
 
+    def resolved(self):
+        """the type with top-level aliases looked through"""
+        t = self
+        while t.kind == "alias":
+            t = t.args[0]
+        return t
+
     def walk(self):
         yield self
         for a in self.args:
@@ -73,6 +80,8 @@ class Ty:
         k = self.kind
         if k in ("prim", "raw"):
             return self.name
+        if k == "alias":
+            return "alias>" + self.args[0].tag()
         if k in ("param", "self"):
             return k
         if k == "user":
@@ -272,6 +281,13 @@ class Item:
                 eff = "untagged" if v.untagged else rep
                 if eff == "internal" and v.kind == "newtype" and v.fields[0].ty.kind == "map":
                     t.append("k:internal-newtype-map")
+                if eff == "internal" and v.kind == "newtype" and v.fields[0].ty.kind == "user" and v.fields[0].ty.item.kind == "enum":
+                    inner = v.fields[0].ty.item
+                    for w in inner.live_variants():
+                        weff = "untagged" if (w.untagged or inner.untagged) else inner.repr()
+                        if (weff == "external" and w.kind == "unit") or (weff == "untagged" and w.kind != "struct"):
+                            # serde merges `"W": null` into the tagged object; the binding intersects with a string literal
+                            t.append("k:flatten-enum-with-non-object-arm")
                 if rep == "internal" and v.untagged and v.kind == "struct":
                     t.append("k:untagged-struct-variant-in-internal-enum")
         if self.optional_fields and any(f.ty.kind == "param" for f in self.fields):
@@ -486,6 +502,7 @@ class Profile:
     placements: bool = False         # C03/C04/C11/C13: #[ts(export_to = ..)] placements, cycles, parameter defaults
     ts_only: bool = False            # derive only TS (+ the inert SerdeAttrs helper)
     wide: float = 0.0                # C13: probability of a struct referring to 5..9 distinct earlier items
+    p_alias: float = 0.06            # a field type is written through a `type Alias = ..;` (closed types only)
 
 
 class Gen:
@@ -494,6 +511,7 @@ class Gen:
         self.prefix = prefix
         self.p = profile or Profile()
         self.items: List[Item] = []
+        self.aliases: List[Ty] = []
         self.counter = 0
         self.entries = []   # (entry_id, item, [arg Ty])
 
@@ -558,6 +576,14 @@ class Gen:
         return Ty("user", item=it, args=args)
 
     def ty(self, depth, params, allow_self=False, allow_recursive=True, arg_pos=False):
+        t = self.ty_plain(depth, params, allow_self, allow_recursive, arg_pos)
+        if depth > 0 and t.kind != "prim" and self.r.random() < self.p.p_alias and not t.has("param") and not t.has("self"):
+            a = Ty("alias", f"Alias{self.prefix}{self.n()}", args=[t])
+            self.aliases.append(a)
+            return a
+        return t
+
+    def ty_plain(self, depth, params, allow_self=False, allow_recursive=True, arg_pos=False):
         r = self.r.random()
         if depth <= 0 or r < 0.30:
             if params and self.r.random() < 0.35:
@@ -717,7 +743,7 @@ class Gen:
                 it.optional_fields = self.r.choice(["opt", "nullable"])
                 if it.optional_fields == "opt":
                     for f in it.fields:
-                        if f.ty.kind == "opt" and f.optional is None and not f.flatten and not f.skip:
+                        if f.ty.resolved().kind == "opt" and f.optional is None and not f.flatten and not f.skip:
                             f.extra_attrs.append('#[serde(skip_serializing_if = "Option::is_none")]')
         if self.r.random() < self.p.p_attr * 0.3:
             it.rename = f"Ren{self.prefix}{self.n()}"
@@ -752,11 +778,20 @@ class Gen:
                 if rep == "internal":
                     # serde only serializes internally tagged newtype variants whose content is a
                     # struct or a map (Appendix A.1): keep to those
-                    t = self.user_ref(it.params, pred=lambda i: i.kind == "named" and i.tag is None) \
-                        if self.r.random() < 0.85 else None
+                    def mapish(i):
+                        # ... or an enum whose variants serialize as maps (serde refuses the others at run time)
+                        if i.kind == "named":
+                            return i.tag is None
+                        if i.kind != "enum" or i.untagged or self.r.random() < 0.5:
+                            return False
+                        return self.flatten_clean(i) or self.r.random() < 0.08
+                    t = self.user_ref(it.params, pred=mapish) if self.r.random() < 0.85 else None
                     if t is None:
                         t = Ty("map", "BTreeMap", args=[prim("String"), self.ty(1, it.params)])
-                    v.fields = [Field(None, t)]
+                    f = Field(None, t)
+                    if self.p.inline and t.kind == "user" and self.inlineable(t) and self.r.random() < 0.35:
+                        f.inline = True
+                    v.fields = [f]
                 else:
                     v.fields = [self.unnamed_field(it.params, d)]
             elif vk == "tuple":
@@ -912,8 +947,12 @@ use vsupport::{Samples, SerdeAttrs, TypeEntry};
 """
 
 
+def emit_aliases(g) -> str:
+    return "\n".join(f"pub type {a.name} = {a.args[0].rs()};" for a in getattr(g, "aliases", []))
+
+
 def emit_crate_source(g: Gen, entry_ctor="serde") -> str:
-    out = [HEADER]
+    out = [HEADER, emit_aliases(g)]
     for it in g.items:
         out.append(emit_item(it))
         out.append("")
